@@ -49,7 +49,7 @@ def _wait(pred, timeout, what):
     if timeout is None or timeout < 0:
         raise WouldBlock(what)
     if w is not None:
-        w.clock.advance(timeout)
+        w.advance_time(timeout)
         w.note_timed_out_wait(what, timeout)
     return False
 
